@@ -36,7 +36,7 @@ ReadOps   == {"read"}
 BytesOps  == {"bytes", "write_to", "text_utf8_raw", "split_bytes", "efs_bytes"}      \* return the remaining payload octets
 \* efs_bytes = error_for_status() then bytes(): the response itself for a 2xx status, Err(StatusCode) otherwise
 EfsRejects(s, st) == st.op = "efs_bytes" /\ ~(s.status \in 200..299)
-TextOps   == {"text", "text_with", "text_utf8", "text_reader"} \* return the decoded string
+TextOps   == {"text", "text_with", "text_utf8", "text_reader", "json", "json_utf8"} \* return the decoded string (the JSON helpers: the document)
 HelperOps == BytesOps \cup TextOps
 
 HeadReachable(s) ==
@@ -70,8 +70,11 @@ G01_prefix(s, st, e) ==
   e.res = "ok" => (e.n <= st.buf /\ e.lcp = e.n /\ st.delivered + e.n <= s.payloadLen)
 \* end-of-body is only reported when the whole payload was delivered and the
 \* end of the frame was really seen (C01 for intact responses, C02 otherwise)
+\* (after an error the chunked reader and the decoders are finished for good; a length- or close-delimited
+\* identity body goes on after a transient error - a timed-out read - and is still only over when it is complete)
+ResumableAfterError(s) == s.faultKind = "errt" /\ s.coding = "identity" /\ s.framing \in {"length", "close"}
 G01_eofOnlyWhenComplete(s, st, e) ==
-  (e.res = "ok" /\ e.n = 0 /\ st.buf > 0 /\ ~st.errSeen) =>
+  (e.res = "ok" /\ e.n = 0 /\ st.buf > 0 /\ (~st.errSeen \/ ResumableAfterError(s))) =>
       IF s.coding = "identity"
       THEN st.delivered = s.payloadLen /\ FrameDone(s, st.arrived, st.closed)
       ELSE st.delivered = s.payloadLen /\ ~CodedCut(s)
